@@ -71,6 +71,9 @@ def binary_op(op: str, fst, snd):
     if op == "+":
         return _add(fst, snd)
     if op == "-":
+        if snd.is_Number:
+            # as for the unary minus: "- 0.5" adds the number -0.5, not the unevaluated product -1*0.5
+            return _add(fst, -snd)
         return _add(fst, sp.Mul(sp.Integer(-1), snd, evaluate=False))
     if op == "/":
         return sp.Mul(fst, sp.Pow(snd, sp.Integer(-1), evaluate=False), evaluate=False)
